@@ -127,6 +127,20 @@ def fam_bracket_punct(r, n):
     return out
 
 
+def fam_hexish(r, n):
+    """Short strings over a-f and digits next to ones over g-z: adding one
+    example can *narrow* a pattern ([a-z] -> [0-9a-f]), so later samples can
+    lose strings an earlier expression covered."""
+    out = []
+    for _ in range(n):
+        k = r.randint(2, 3)
+        kind = r.weighted([(3, 'af'), (2, 'gz'), (3, 'mix'), (1, 'dig')])
+        alpha = {'af': 'abcdef', 'gz': 'ghjkmnpqrstuvwxyz',
+                 'mix': 'abcdef0123456789', 'dig': '0123456789'}[kind]
+        out.append(''.join(r.pick(alpha) for _ in range(k)))
+    return out
+
+
 FAMILIES = [fam_ids, fam_dates, fam_emails, fam_uuid, fam_tels,
             fam_bracket_punct, fam_many_frags]
 
@@ -145,7 +159,8 @@ def corpus(r, max_n=40, risky_rate=0.04, allow_none=True):
         for _ in range(nf):
             fam = r.weighted([(3, fam_ids), (2, fam_dates), (2, fam_emails),
                               (1, fam_uuid), (2, fam_tels),
-                              (3, fam_bracket_punct), (0.4, fam_many_frags)])
+                              (3, fam_bracket_punct), (0.4, fam_many_frags),
+                              (2.5, fam_hexish)])
             k = max(1, n // (nf + (1 if mode == 'mixed' else 0)))
             if fam is fam_many_frags:
                 k = min(k, 3)
